@@ -1,5 +1,7 @@
 """C08 — solver stream (see rv/solverstream.py)."""
 from rv import solverstream as SS
+from rv import graphlib as GL
+from rv.core import Stream
 
 RULE = ("random package universes (<= 6 projects x <= 3 versions x <= 3 requirements; shapes: acyclic conflict-free, acyclic with "
         "conflicts, cyclic, self-referential, extras-heavy; spelling variants; unpinned and fully pinned constraint files) solved by "
@@ -11,5 +13,98 @@ ASSUMPTIONS = [
 ]
 
 
+class RenderedAnnotations(Stream):
+    """what the writer *prints* next to a pin is exactly the requirer relation: solved graphs (one and several requirers,
+    one requirer asking twice - plainly and under an extra -, file requirers, extras) written by the real
+    write_requirements_file in both layouts; the entries are parsed back from the text and compared with the relation
+    (build_explanation, which the compile stream judges against the universe)"""
+    name = "rendered-annotations"
+    quick_n = 300
+    thorough_n = 15000
+    batch = 100
+
+    def generate(self, rng):
+        from rv import textlib as TL
+        og = TL.gen_og(rng, allow_path_requirers=False)
+        for p in og["pins"]:
+            p["link"] = None
+        return {"og": og, "multiline": rng.random() < 0.6, "hashes": rng.random() < 0.4}
+
+    def impl(self, case):
+        import re
+        from rv import textlib as TL
+        from req_compile.dists import build_explanation
+        try:
+            g, roots, repo, ins = TL.compile_og(case["og"])
+        except Exception as ex:
+            return {"compile_error": type(ex).__name__}
+        text = TL.write_text(g, roots, repo, ins, multiline=case["multiline"], hashes=case["hashes"], urls=False, annotate_source=False)
+        relation = {}
+        for n in g.visit_nodes(roots):
+            if n.metadata is None or n.metadata.meta:
+                continue
+            relation[n.metadata.name] = sorted(build_explanation(n))
+        printed = {}
+        cur = None
+        for line in text.splitlines():
+            m = re.match(r"^([A-Za-z0-9._-]+)==\S+(.*)$", line)
+            if m:
+                cur = m.group(1)
+                printed[cur] = []
+                rest = m.group(2)
+                if "#" in rest:      # one-line layout: `name==ver  # a (x), b`
+                    body = rest.split("#", 1)[1].strip()
+                    printed[cur] = [e.strip() for e in re.split(r",\s+(?![^()]*\))", body) if e.strip()]
+                continue
+            t = line.strip()
+            if cur is None or not t.startswith("#"):
+                continue
+            t = t[1:].strip()
+            if t == "via":
+                continue
+            if t.startswith("via "):
+                t = t[4:]
+            if t:
+                printed[cur].append(t)
+        return {"relation": relation, "printed": {k: sorted(v) for k, v in printed.items()}, "text": text}
+
+    def flags(self, case, r):
+        if "relation" not in r:
+            return []
+        fl = ["multi-line" if case["multiline"] else "one-line"]
+        if any(len(v) > 1 for v in r["relation"].values()):
+            fl.append("several-entries")
+        for k, v in r["relation"].items():
+            names = [e.split(" ")[0].split("[")[0] for e in v]
+            if len(set(names)) < len(names):
+                fl.append("one-requirer-asks-twice")
+                break
+        return fl
+
+    def oracle(self, case, r):
+        if "relation" not in r:
+            return []
+        fails = []
+        for k, want in r["relation"].items():
+            got = r["printed"].get(k)
+            if got is None:
+                fails.append(("C08/pin-not-printed", {"pin": k}))
+            elif got != want:
+                missing = [e for e in want if e not in got]
+                sym = "printed-annotation-misses-an-entry" if missing else "printed-annotation-has-extra-entry"
+                fails.append(("C08/%s/%s" % (sym, "multi-line" if case["multiline"] else "one-line"), {"pin": k, "relation": want, "printed": got}))
+        return fails
+
+    def shrink(self, case):
+        og = case["og"]
+        for i in range(len(og["pins"]) - 1, 0, -1):
+            name = og["pins"][i]["name"]
+            pins = [dict(p, reqs=[q for q in p["reqs"] if GL.norm(GL.P(q).name) != GL.norm(name)]) for j, p in enumerate(og["pins"]) if j != i]
+            inputs = [dict(inp, reqs=[q for q in inp["reqs"] if GL.norm(GL.P(q).name) != GL.norm(name)]) for inp in og["inputs"]]
+            inputs = [inp for inp in inputs if inp["reqs"]]
+            if inputs:
+                yield dict(case, og={"pins": pins, "inputs": inputs})
+
+
 def streams():
-    return [SS.CompileStream("C08")]
+    return [SS.CompileStream("C08"), RenderedAnnotations()]
